@@ -169,8 +169,21 @@ def _pair_pattern(ctx, f, call: ast.Call):
     def _rows(e):
         return isinstance(e, ast.Subscript) and isinstance(e.value, ast.Attribute) and e.value.attr in ("genomes", "fitnesses")
 
+    _RED = ("min", "max", "amin", "amax", "sort", "mean", "median", "sum", "nanmin", "nanmax", "minimum", "maximum", "fmin", "fmax")
+
     def _reduction(e):
-        return isinstance(e, ast.Call) and norm(e.func).split(".")[-1] in ("min", "max", "amin", "amax", "sort", "mean", "median", "sum", "nanmin", "nanmax", "minimum", "maximum", "fmin", "fmax")
+        if isinstance(e, ast.IfExp):
+            return _reduction(e.body) and _reduction(e.orelse)
+        if not isinstance(e, ast.Call):
+            return False
+        if norm(e.func).split(".")[-1] in _RED:
+            return True
+        # the reducing function picked by the direction: `better = np.maximum if maximize else np.minimum; better(a, b)`
+        fn_ = e.func
+        if isinstance(fn_, ast.Name):
+            d_ = local_defs(f).get(fn_.id, [])
+            fn_ = d_[0] if len(d_) == 1 else fn_
+        return isinstance(fn_, ast.IfExp) and all(norm(x).split(".")[-1] in _RED for x in (fn_.body, fn_.orelse))
 
     def _where_rows(e, attr):
         """np.where(mask, A.<attr>, B.<attr>): row-wise choice between two populations' arrays -> (mask text, A, B)"""
@@ -1022,13 +1035,13 @@ def shared_module_state(ctx: Ctx, rule: str, attrs: tuple | None = None):
     return obs
 
 
-def r02_11(ctx: Ctx):
+def r02_11(ctx: Ctx, every_module: bool = False):
     """R02.11 no evaluation result is kept in state shared between instances: a mutable container defined in a class body and mutated through `self` is one object for all instances (e.g. a fitness cache shared by different objectives)."""
     obs = []
     n = 0
     MUT = {"append", "extend", "insert", "update", "setdefault", "add", "pop", "clear", "remove", "__setitem__"}
     for ci in ctx.prog.classes.values():
-        if not ci.module.name.startswith(("pyhms.core", "pyhms.utils.cache", "pyhms.demes", "pyhms.sprout", "pyhms.stop_conditions")):
+        if not every_module and not ci.module.name.startswith(("pyhms.core", "pyhms.utils.cache", "pyhms.demes", "pyhms.sprout", "pyhms.stop_conditions")):
             continue
         n += 1
         shared = {}
@@ -1064,7 +1077,7 @@ def r02_11(ctx: Ctx):
         # is kept on the instance (`def __init__(self, cache={}): self._cache = cache`) and then written
         pass
     for ci in ctx.prog.classes.values():
-        if not ci.module.name.startswith(("pyhms.core", "pyhms.utils.cache", "pyhms.demes", "pyhms.sprout", "pyhms.stop_conditions")):
+        if not every_module and not ci.module.name.startswith(("pyhms.core", "pyhms.utils.cache", "pyhms.demes", "pyhms.sprout", "pyhms.stop_conditions")):
             continue
         init = ci.methods.get("__init__")
         if init is None:
